@@ -1,6 +1,213 @@
+(* Props/C16.v — weekday navigation lands on the right day inside the right unit.
+   Only theorem statements; every proof is `exact <lemma>` (Proofs/C16Facts.v, Proofs/C16DateTime.v).
+   The functions d_* / t_* are the executable models of Date / DateTime in Model/Weekday.v that the correspondence run of
+   tools/props/C16.py compares with /repo on every check (both backends).  A date is identified with its proleptic ordinal
+   (date_ord, Spec/Cal.v); wf_date p = p is a date of the supported range (valid, year 1..9999); weekdays are pendulum's
+   WeekDay numbers Monday = 0 .. Sunday = 6 (dow); units U_MONTH, U_QUARTER, U_YEAR; MAXORD = ordinal of 9999-12-31;
+   date_of_ord n = Ok (the date with ordinal n) inside 1..MAXORD, Raise OverflowError outside (what `date + timedelta` does). *)
 From Coq Require Import ZArith Bool.
-From PV Require Import Lib.PyBase Spec.Cal Proofs.CalFacts Model.Weekday Proofs.C16Facts.
+From PV Require Import Lib.PyBase Spec.Cal Proofs.CalFacts Model.Weekday Proofs.C16Facts Proofs.C16DateTime.
 Open Scope Z_scope.
-Theorem maxord_is_last_day : MAXORD = ymd2ord 9999 12 31.
-Proof. exact maxord_val. Qed.
-Print Assumptions maxord_is_last_day.
+
+(* ---- next / previous ---- *)
+Theorem next_spec : forall p wd, wf_date p -> valid_wd wd ->
+  d_next p (Some wd) = date_of_ord (date_ord p + (wd - dow p - 1) mod 7 + 1).
+Proof. exact next_closed_form. Qed.
+Print Assumptions next_spec.
+
+Theorem next_default_is_one_week_later : forall p, wf_date p -> d_next p None = date_of_ord (date_ord p + 7).
+Proof. exact next_none_closed_form. Qed.
+Print Assumptions next_default_is_one_week_later.
+
+(* 1..7 days later, on weekday wd, and no date strictly between has weekday wd *)
+Theorem next_is_nearest_later : forall p wd q, wf_date p -> valid_wd wd -> d_next p (Some wd) = Ok q ->
+  wf_date q /\ date_ord p < date_ord q <= date_ord p + 7 /\ dow q = wd /\
+  (forall q', wf_date q' -> date_ord p < date_ord q' < date_ord q -> dow q' <> wd).
+Proof. exact next_nearest. Qed.
+Print Assumptions next_is_nearest_later.
+
+(* defined exactly when the target is a date; otherwise OverflowError (no such date exists) *)
+Theorem next_defined_iff_in_range : forall p wd, wf_date p -> valid_wd wd ->
+  (date_ord p + (wd - dow p - 1) mod 7 + 1 <= MAXORD -> exists q, d_next p (Some wd) = Ok q) /\
+  (MAXORD < date_ord p + (wd - dow p - 1) mod 7 + 1 -> d_next p (Some wd) = Raise E_OverflowError).
+Proof. exact next_defined. Qed.
+Print Assumptions next_defined_iff_in_range.
+
+(* the `while dt.day_of_week != day_of_week` loop never needs more than 7 evaluations of its test *)
+Theorem next_fuel_7 : forall p o, wf_date p -> owd_ok o -> d_next p o <> Raise E_OutOfFuel.
+Proof. exact next_fuel_7_suffices. Qed.
+Print Assumptions next_fuel_7.
+
+Theorem previous_spec : forall p wd, wf_date p -> valid_wd wd ->
+  d_previous p (Some wd) = date_of_ord (date_ord p - (dow p - wd - 1) mod 7 - 1).
+Proof. exact previous_closed_form. Qed.
+Print Assumptions previous_spec.
+
+Theorem previous_default_is_one_week_earlier : forall p, wf_date p -> d_previous p None = date_of_ord (date_ord p - 7).
+Proof. exact previous_none_closed_form. Qed.
+Print Assumptions previous_default_is_one_week_earlier.
+
+Theorem previous_is_nearest_earlier : forall p wd q, wf_date p -> valid_wd wd -> d_previous p (Some wd) = Ok q ->
+  wf_date q /\ date_ord p - 7 <= date_ord q < date_ord p /\ dow q = wd /\
+  (forall q', wf_date q' -> date_ord q < date_ord q' < date_ord p -> dow q' <> wd).
+Proof. exact previous_nearest. Qed.
+Print Assumptions previous_is_nearest_earlier.
+
+Theorem previous_defined_iff_in_range : forall p wd, wf_date p -> valid_wd wd ->
+  (1 <= date_ord p - (dow p - wd - 1) mod 7 - 1 -> exists q, d_previous p (Some wd) = Ok q) /\
+  (date_ord p - (dow p - wd - 1) mod 7 - 1 < 1 -> d_previous p (Some wd) = Raise E_OverflowError).
+Proof. exact previous_defined. Qed.
+Print Assumptions previous_defined_iff_in_range.
+
+Theorem previous_fuel_7 : forall p o, wf_date p -> owd_ok o -> d_previous p o <> Raise E_OutOfFuel.
+Proof. exact previous_fuel_7_suffices. Qed.
+Print Assumptions previous_fuel_7.
+
+(* ---- units: membership is an interval of ordinals ---- *)
+Theorem unit_is_an_interval : forall u p q, is_unit u -> wf_date p -> wf_date q ->
+  (in_unit u p q <-> unit_start u p <= date_ord q <= unit_end u p).
+Proof. exact in_unit_ord. Qed.
+Print Assumptions unit_is_an_interval.
+
+(* ---- first_of / last_of ---- *)
+Theorem first_of_spec : forall u p wd, is_unit u -> wf_date p -> valid_wd wd ->
+  exists q, d_first_of u p (Some wd) = Ok q /\ wf_date q /\ in_unit u p q /\ dow q = wd /\
+            date_ord q = unit_start u p + (wd - weekday0 (unit_start u p)) mod 7 /\
+            (forall q', wf_date q' -> in_unit u p q' -> dow q' = wd -> date_ord q <= date_ord q').
+Proof. exact first_of_least. Qed.
+Print Assumptions first_of_spec.
+
+Theorem first_of_default_is_first_day : forall u p, is_unit u -> wf_date p ->
+  exists q, d_first_of u p None = Ok q /\ wf_date q /\ in_unit u p q /\ date_ord q = unit_start u p /\
+            (forall q', wf_date q' -> in_unit u p q' -> date_ord q <= date_ord q').
+Proof. exact first_of_none_is_first_day. Qed.
+Print Assumptions first_of_default_is_first_day.
+
+Theorem last_of_spec : forall u p wd, is_unit u -> wf_date p -> valid_wd wd ->
+  exists q, d_last_of u p (Some wd) = Ok q /\ wf_date q /\ in_unit u p q /\ dow q = wd /\
+            date_ord q = unit_end u p - (weekday0 (unit_end u p) - wd) mod 7 /\
+            (forall q', wf_date q' -> in_unit u p q' -> dow q' = wd -> date_ord q' <= date_ord q).
+Proof. exact last_of_greatest. Qed.
+Print Assumptions last_of_spec.
+
+Theorem last_of_default_is_last_day : forall u p, is_unit u -> wf_date p ->
+  exists q, d_last_of u p None = Ok q /\ wf_date q /\ in_unit u p q /\ date_ord q = unit_end u p /\
+            (forall q', wf_date q' -> in_unit u p q' -> date_ord q' <= date_ord q).
+Proof. exact last_of_none_is_last_day. Qed.
+Print Assumptions last_of_default_is_last_day.
+
+(* ---- nth_of ---- *)
+(* complete description for every n >= 1: with t = first occurrence + 7 (n - 1),
+   Ok (date t) if t is inside the unit, else PendulumException if t is still a date, else OverflowError *)
+Theorem nth_of_closed_form : forall u p n wd, is_unit u -> wf_date p -> valid_wd wd -> 1 <= n ->
+  d_nth_of u p n wd = nth_result u p n wd.
+Proof. exact d_nth_of_spec. Qed.
+Print Assumptions nth_of_closed_form.
+
+Theorem nth_of_spec : forall u p n wd q, is_unit u -> wf_date p -> valid_wd wd -> 1 <= n ->
+  (d_nth_of u p n wd = Ok q <->
+   (wf_date q /\ in_unit u p q /\ date_ord q = first_occ (unit_start u p) wd + 7 * (n - 1))).
+Proof. exact nth_of_ok_iff. Qed.
+Print Assumptions nth_of_spec.
+
+Theorem nth_of_is_n_minus_1_weeks_after_first_of : forall u p n wd q, is_unit u -> wf_date p -> valid_wd wd -> 1 <= n ->
+  d_nth_of u p n wd = Ok q -> dow q = wd /\
+  exists q1, d_first_of u p (Some wd) = Ok q1 /\ date_ord q = date_ord q1 + 7 * (n - 1).
+Proof. exact nth_of_weekday. Qed.
+Print Assumptions nth_of_is_n_minus_1_weeks_after_first_of.
+
+(* "raises PendulumException when the unit holds fewer than n": holds wherever the n-th occurrence would still be a date ... *)
+Theorem nth_of_raises_pendulum_exception_partial : forall u p n wd, is_unit u -> wf_date p -> valid_wd wd -> 1 <= n ->
+  unit_end u p < first_occ (unit_start u p) wd + 7 * (n - 1) <= MAXORD ->
+  d_nth_of u p n wd = Raise E_PendulumException.
+Proof. exact nth_of_exception_kind_partial. Qed.
+Print Assumptions nth_of_raises_pendulum_exception_partial.
+
+(* ... in particular for every date before year 9999 and n <= 54 no OverflowError can occur ... *)
+Theorem nth_of_no_overflow_below_9999 : forall u p n wd, is_unit u -> wf_date p -> valid_wd wd -> 1 <= n <= 54 ->
+  d_year p <= 9998 -> d_nth_of u p n wd <> Raise E_OverflowError.
+Proof. exact nth_of_no_overflow_before_9999. Qed.
+Print Assumptions nth_of_no_overflow_below_9999.
+
+(* ... and is false of the current code at the upper edge (known finding nth-of-overflow-at-max-year):
+   Date(9999, 12, 1).nth_of("month", 5, MONDAY) raises OverflowError *)
+Theorem nth_of_raises_pendulum_exception_refuted :
+  exists u p n wd, is_unit u /\ wf_date p /\ valid_wd wd /\ 1 <= n /\
+    unit_end u p < first_occ (unit_start u p) wd + 7 * (n - 1) /\
+    d_nth_of u p n wd = Raise E_OverflowError.
+Proof. exact nth_of_exception_kind_refuted. Qed.
+Print Assumptions nth_of_raises_pendulum_exception_refuted.
+
+Theorem nth_of_overflow_region : forall u p n wd, is_unit u -> wf_date p -> valid_wd wd -> 1 <= n ->
+  (d_nth_of u p n wd = Raise E_OverflowError <-> MAXORD < first_occ (unit_start u p) wd + 7 * (n - 1)).
+Proof. exact nth_of_overflow_iff. Qed.
+Print Assumptions nth_of_overflow_region.
+
+(* outside the stated domain (n <= 0) the current code returns the first day of the unit, on whatever weekday
+   (known finding nth-of-nonpositive-returns-first-day): Date(2024, 5, 17).nth_of("month", 0, MONDAY) = 2024-05-01, a Wednesday *)
+Theorem nth_of_nonpositive_n_refuted :
+  exists u p n wd q, is_unit u /\ wf_date p /\ valid_wd wd /\ n <= 0 /\ d_nth_of u p n wd = Ok q /\ dow q <> wd.
+Proof. exact nth_of_nonpositive_refuted. Qed.
+Print Assumptions nth_of_nonpositive_n_refuted.
+
+(* ---- DateTime (naive, UTC, fixed offsets): the Date function on the date part, time 00:00 unless keep_time, zone kept ----
+   lift r tod z = the date result r with time of day tod (microseconds) and zone z attached *)
+Theorem datetime_next_is_date_next : forall p tod z o keep, wf_date p ->
+  t_next (mkdt p tod z) o keep = lift (d_next p o) (if keep then tod else 0) z.
+Proof. exact t_next_lift. Qed.
+Print Assumptions datetime_next_is_date_next.
+
+Theorem datetime_previous_is_date_previous : forall p tod z o keep, wf_date p ->
+  t_previous (mkdt p tod z) o keep = lift (d_previous p o) (if keep then tod else 0) z.
+Proof. exact t_previous_lift. Qed.
+Print Assumptions datetime_previous_is_date_previous.
+
+Theorem datetime_first_of_is_date_first_of : forall u p tod z o, wf_date p ->
+  t_first_of u (mkdt p tod z) o = lift (d_first_of u p o) 0 z.
+Proof. exact t_first_of_lift. Qed.
+Print Assumptions datetime_first_of_is_date_first_of.
+
+Theorem datetime_last_of_is_date_last_of : forall u p tod z o, wf_date p ->
+  t_last_of u (mkdt p tod z) o = lift (d_last_of u p o) 0 z.
+Proof. exact t_last_of_lift. Qed.
+Print Assumptions datetime_last_of_is_date_last_of.
+
+Theorem datetime_nth_of_is_date_nth_of : forall u p tod z n wd, wf_date p -> valid_wd wd ->
+  t_nth_of u (mkdt p tod z) n wd = lift (d_nth_of u p n wd) 0 z.
+Proof. exact t_nth_of_lift. Qed.
+Print Assumptions datetime_nth_of_is_date_nth_of.
+
+Theorem datetime_next_time_and_zone : forall x o keep y, wf_date (t_date x) -> t_next x o keep = Ok y ->
+  d_next (t_date x) o = Ok (t_date y) /\ t_zone y = t_zone x /\ t_tod y = (if keep then t_tod x else 0).
+Proof. exact t_next_time_zone. Qed.
+Print Assumptions datetime_next_time_and_zone.
+
+Theorem datetime_previous_time_and_zone : forall x o keep y, wf_date (t_date x) -> t_previous x o keep = Ok y ->
+  d_previous (t_date x) o = Ok (t_date y) /\ t_zone y = t_zone x /\ t_tod y = (if keep then t_tod x else 0).
+Proof. exact t_previous_time_zone. Qed.
+Print Assumptions datetime_previous_time_and_zone.
+
+Theorem keeps_time_iff_keep_time : forall x o keep y, wf_date (t_date x) -> t_tod x <> 0 -> t_next x o keep = Ok y ->
+  (t_tod y = t_tod x <-> keep = true).
+Proof. exact keeps_time_iff_keep_time_next. Qed.
+Print Assumptions keeps_time_iff_keep_time.
+
+Theorem datetime_first_of_time_and_zone : forall u x o y, wf_date (t_date x) -> t_first_of u x o = Ok y ->
+  d_first_of u (t_date x) o = Ok (t_date y) /\ t_zone y = t_zone x /\ t_tod y = 0.
+Proof. exact t_first_of_time_zone. Qed.
+Print Assumptions datetime_first_of_time_and_zone.
+
+Theorem datetime_last_of_time_and_zone : forall u x o y, wf_date (t_date x) -> t_last_of u x o = Ok y ->
+  d_last_of u (t_date x) o = Ok (t_date y) /\ t_zone y = t_zone x /\ t_tod y = 0.
+Proof. exact t_last_of_time_zone. Qed.
+Print Assumptions datetime_last_of_time_and_zone.
+
+Theorem datetime_nth_of_time_and_zone : forall u x n wd y, wf_date (t_date x) -> valid_wd wd -> t_nth_of u x n wd = Ok y ->
+  d_nth_of u (t_date x) n wd = Ok (t_date y) /\ t_zone y = t_zone x /\ t_tod y = 0.
+Proof. exact t_nth_of_time_zone. Qed.
+Print Assumptions datetime_nth_of_time_and_zone.
+
+Theorem datetime_nth_of_raises_like_date : forall u x n wd e, wf_date (t_date x) -> valid_wd wd ->
+  (t_nth_of u x n wd = Raise e <-> d_nth_of u (t_date x) n wd = Raise e).
+Proof. exact t_nth_of_raise. Qed.
+Print Assumptions datetime_nth_of_raises_like_date.
